@@ -214,6 +214,34 @@ async fn run_world(wi: u64, mut rng: Rng) -> anyhow::Result<Summary> {
         }
     }
     for nd in &nodes { net.set_silent(&nd.tid, false); }
+    // a hostile peer answers a FIND_VALUE of node 0 with 4096 bytes: whatever get returns, nothing over 512 bytes
+    // may be kept in the node's store (and a later get must not serve it from there)
+    {
+        let hid = hex::encode(rng.bytes(32));
+        let haddr = "10.200.200.1:9000";
+        let big = vec![0x5Au8; 4096];
+        let big2 = big.clone();
+        let beh: Behaviour = std::sync::Arc::new(move |me, msg| match &msg.payload {
+            DhtNetworkOperation::FindValue { key } | DhtNetworkOperation::Get { key } =>
+                Reply::Result(DhtNetworkResult::ValueFound { key: *key, value: big2.clone(), source: me.to_string() }),
+            DhtNetworkOperation::FindNode { key } => Reply::Result(DhtNetworkResult::NodesFound { key: *key, nodes: vec![] }),
+            DhtNetworkOperation::Leave => Reply::Result(DhtNetworkResult::LeaveSuccess),
+            _ => Reply::Silent });
+        net.add_scripted(&hid, haddr, beh);
+        let _ = nodes[0].transport.connect_peer(haddr).await;
+        let mg = nodes[0].manager.clone(); let hid2 = hid.clone();
+        wait_until(|| { let mg = mg.clone(); let h = hid2.clone(); async move { mg.get_connected_peers().await.iter().any(|p| p.peer_id == h) } }, Duration::from_secs(3)).await;
+        // a key next to the hostile peer's own DHT key, so that it is among the first candidates
+        let mut hk = dht_key_of(&hid); hk[31] ^= 1;
+        let r = tokio::time::timeout(Duration::from_secs(30), nodes[0].manager.get(&hk)).await;
+        let held = nodes[0].manager.get_local(&hk).await.ok().flatten();
+        sum.count("hostile_oversize_value_probes");
+        if held.as_ref().map(|v| v.len() > 512).unwrap_or(false) {
+            sum.violation(910000 + wi, "a value over 512 bytes taken from a peer's FIND_VALUE reply entered the node's store", &[],
+                json!({"held_len": held.map(|v| v.len()), "get_returned": format!("{:?}", r.map(|x| x.map(|y| match y { DhtNetworkResult::GetSuccess { value, .. } => format!("GetSuccess({} bytes)", value.len()), o => format!("{o:?}").chars().take(60).collect() }))).chars().take(200).collect::<String>()}));
+        }
+        let _ = big;
+    }
     for nd in &nodes {
         let _ = tokio::time::timeout(Duration::from_secs(10), nd.manager.stop()).await;
         let _ = tokio::time::timeout(Duration::from_secs(5), nd.transport.stop()).await;
